@@ -1,6 +1,6 @@
 (* C02 — no access outside the allocated block while within declared capacity. *)
 From Coq Require Import ZArith List Bool.
-From Cntgs Require Import Base Layout Mem Vector Spec Rep EsizeThm C02Thm NeededThm.
+From Cntgs Require Import Base Layout Mem Vector Spec Rep EsizeThm Refine C02Thm NeededThm C02Hist.
 Import ListNotations.
 Local Open Scope Z_scope.
 
@@ -51,6 +51,27 @@ Theorem C02_single_element_fits : forall L fixed cnts a,
   snd (place L cnts a) - a <= fst (esize L fixed) + vbytes L cnts.
 Proof. intros L fixed cnts a Hwf Hc Ha Hd. exact (proj1 (element_bound L fixed cnts a Hwf Hc Ha Hd)). Qed.
 Print Assumptions C02_single_element_fits.
+
+(* HISTORY level: construction for (cap, budget), then ANY history of emplace_back /
+   pop_back / erase / erase(first,last) / clear / reserve that respects the documented limits
+   (size() < capacity() at emplace_back - shist_valid; the varying payload after each
+   emplace_back within the byte budget of the construction or of the last growing reserve, and
+   reserve(n, b) with b covering what is stored - bhist_valid): in the state reached, every
+   stored element lies at a non-negative offset and ends inside the SA * units bytes the
+   vector owns.  For trivially relocatable lists with a benign tail.  Tight packing (C05) is
+   what makes the fill of the proof above the actual layout after erase and pop_back. *)
+Theorem C02_every_history_stays_inside_the_block : forall L cap budget fixed aid junk bid tbid h,
+  wf_plist L = true -> all_triv L = true -> tail_ok (SA L) true L = true ->
+  0 <= cap -> 0 <= budget -> Forall (fun c => 0 <= c) fixed ->
+  let v0 := fst (mkvec L cap budget fixed aid junk bid tbid) in
+  let s0 := {| s_cap := cap; s_elems := [] |} in
+  shist_valid L (fixed_counts L fixed) s0 h -> bhist_valid L s0 budget h ->
+  let v := vrun L junk v0 h in
+  let l := s_elems (srun s0 h) in
+  exists offs, RepO L v l offs /\
+    Forall2 (fun a t => 0 <= a /\ elem_end L a t <= SA L * v_units v) offs l.
+Proof. exact every_element_inside_block_every_history. Qed.
+Print Assumptions C02_every_history_stays_inside_the_block.
 
 (* (a) is FALSE for lists with a plain/fixed parameter behind the last VaryingSize
    parameter: the faithful model overruns its block within the documented limits.  This is
